@@ -37,6 +37,14 @@ func runSeq(run *hx.Run, seq int, ops []dbx.Op, gen func() (dbx.Op, bool), repli
 	run.OutLine("new")
 	db := drummer.NewDB(0, 1)
 	var b sm.IStateMachine
+	// replica C lags: it applies a prefix, stops, and later catches up from A's snapshot installed into the SAME instance
+	var c sm.IStateMachine
+	lagAt, catchAt, caught := -1, -1, false
+	if replicas {
+		c = drummer.NewDB(0, 4)
+		lagAt = snapAt / 2
+		catchAt = snapAt + (snapAt % 7)
+	}
 	or := dbx.NewOracle(run, seq)
 	done := []dbx.Op{}
 	results := []string{}
@@ -66,6 +74,27 @@ func runSeq(run *hx.Run, seq int, ops []dbx.Op, gen func() (dbx.Op, bool), repli
 					if ha, _ := dbx.Hash(db); true {
 						if hb, _ := dbx.Hash(b); ha != hb {
 							c03fail(run, seq, i, done, "hash-after-restore", "hash of a freshly restored replica differs from the source's")
+						}
+					}
+				}
+			}
+		}
+		if c != nil && !caught && i >= catchAt {
+			if data, p := dbx.Snapshot(db); !p {
+				if dbx.RestoreInto(c, data) {
+					c03fail(run, seq, i, done, "lagging-replica-recover-panic", "installing a snapshot into a lagging replica crashed it")
+					c = nil
+				} else {
+					caught = true
+					run.Count("c03:replica_c_caught_up")
+					dc, da := dbx.TakeDump(c), dbx.TakeDump(db)
+					if dc.Canon() != da.Canon() {
+						c03fail(run, seq, i, done, "lagging-replica-state-differs", "a lagging replica that installed a snapshot differs from the replica that took it")
+						if dc.LaunchDeadline != da.LaunchDeadline || dc.Failed != da.Failed {
+							cp := make([]dbx.Op, len(done))
+							copy(cp, done)
+							run.Violate(hx.Violation{Property: "C09", Clause: "deadline_on_every_replica", Signature: "restored-replica-deadline-differs",
+								What: fmt.Sprintf("a lagging replica that installed a snapshot keeps deadline=%d failed=%v, the snapshot's source has deadline=%d failed=%v", dc.LaunchDeadline, dc.Failed, da.LaunchDeadline, da.Failed), Seq: seq, OpIndex: i, Ops: cp})
 						}
 					}
 				}
@@ -129,6 +158,29 @@ func runSeq(run *hx.Run, seq int, ops []dbx.Op, gen func() (dbx.Op, bool), repli
 						c03fail(run, seq, i, done, "state-differs", "restored replica's state or hash differs from the straight one's")
 					}
 					run.Count("c03:replica_b_ops")
+				}
+			}
+			if c != nil && (i < lagAt || caught) {
+				rc := dbx.Apply(c, op.ToUpdate())
+				if caught {
+					if rc != res {
+						c03fail(run, seq, i, done, "lagging-replica-result-differs", fmt.Sprintf("a replica that caught up from a snapshot answered %s, the straight one %s", rc, res))
+						if op.Op == "tick" {
+							cp := make([]dbx.Op, len(done))
+							copy(cp, done)
+							run.Violate(hx.Violation{Property: "C09", Clause: "deadline_on_every_replica", Signature: "restored-replica-failstops-alone",
+								What: fmt.Sprintf("on a tick a replica that caught up from a snapshot answered %s, the straight one %s", rc, res), Seq: seq, OpIndex: i, Ops: cp})
+						}
+						c = nil
+					} else if res != "panic" {
+						hc, _ := dbx.Hash(c)
+						ha, _ := dbx.Hash(db)
+						if hc != ha {
+							c03fail(run, seq, i, done, "lagging-replica-hash-differs", "a replica that caught up from a snapshot has another hash than the straight one")
+							c = nil
+						}
+						run.Count("c03:replica_c_ops")
+					}
 				}
 			}
 			if res == "panic" {
